@@ -394,6 +394,50 @@ def soak(acc, who, n):
         acc.fail(r[0], dict(history=[list(c) for c in hist[:step + 1]]), r[1])
 
 
+def fuzz_decode(data):
+    """bytes -> history: byte 0 picks the parser variant (low 3 bits) and whether the
+    pvl_validate table is used (bit 3); the rest, split at 0xFF bytes, are the texts."""
+    if len(data) < 2:
+        return None
+    parts = data[1:].split(b"\xff")[:6]
+    texts = []
+    for b in parts:
+        try:
+            texts.append(b.decode("utf-8"))
+        except UnicodeDecodeError:
+            texts.append(b.decode("latin-1"))
+    if data[0] & 8:
+        dn = list(VALIDATE_FRESH)[data[0] % len(VALIDATE_FRESH)]
+        return [("vparse", dn, t) for t in texts]
+    v = PARSERS[(data[0] & 7) % len(PARSERS)]
+    return [("parse", v, t) for t in texts]
+
+
+def fuzz_one(data):
+    hist = fuzz_decode(data)
+    if hist is None:
+        return ("short", None)
+    r = run_history(hist)
+    if r is not None:
+        return ("fail", (r[0], dict(history=[list(c) for c in hist]), r[1]))
+    return (f"calls-{len(hist)}", None)
+
+
+def fuzz_corpus():
+    out = []
+    for i, a in enumerate(FIXED_TEXTS[:18] + SOAK_TEXTS):
+        for j, b in enumerate((FIXED_TEXTS[0], SOAK_TEXTS[0], FIXED_TEXTS[1])):
+            out.append(bytes([(i + j) % 16]) + a[:150].encode("utf-8") + b"\xff"
+                       + b.encode("utf-8") + b"\xff" + a[:150].encode("utf-8"))
+    return out
+
+
+def atheris_shard(acc, seed, runs, use_corpus):
+    import sys
+    from vlib.fuzzrun import atheris_shard as run
+    run(acc, ID, seed, runs, use_corpus, max_len=400, prop=sys.modules[__name__])
+
+
 def shards(tier, seed):
     n = 110 if tier == "quick" else 1500
     out = [("random_histories", dict(n=n, seed=seed * 1000 + j)) for j in range(16)]
@@ -401,6 +445,9 @@ def shards(tier, seed):
            for p in list(PARSERS) + ["v-" + dn for dn in VALIDATE_FRESH]] + out
     out += [("soak", dict(who=w, n=400 if tier == "quick" else 5000))
             for w in list(PARSERS) + list(ENCODERS)]
+    if tier == "thorough":
+        out += [("atheris_shard", dict(seed=seed * 100 + j + 1, runs=25000,
+                                       use_corpus=bool(j % 2))) for j in range(6)]
     return out
 
 
